@@ -68,11 +68,14 @@ def build(chk, rng, cenc, denc, extras=(), order=None, ctl_files=None, data_file
     ctext, cfields = control_text(rng)
     cfiles = ctl_files or [(b"./", b""), (b"./md5sums", b"d41d8cd98f00b204e9800998ecf8427e  usr/bin/x\n"), (b"./control", ctext), (b"./conffiles", b"/etc/x\n")]
     if ctl_files is None:
+        # the control file's name in the tarball: any spelling that path.Clean takes to "control"
+        cname = rng.choice([b"./control", b"./control", b"control", b".//control", b"./sub/../control", b"././control"])
+        cfiles = [(cname if n == b"./control" else n, d) for n, d in cfiles]
         k = rng.randrange(3)
         if k == 0:
-            cfiles = [(b"./control", ctext), (b"./md5sums", b"x\n")]
+            cfiles = [(cname, ctext), (b"./md5sums", b"x\n")]
         elif k == 1:
-            cfiles = [(b"./", b""), (b"./md5sums", b"x\n"), (b"./conffiles", b"/etc/x\n"), (b"./control", ctext)]
+            cfiles = [(b"./", b""), (b"./md5sums", b"x\n"), (b"./conffiles", b"/etc/x\n"), (cname, ctext)]
     dfiles = data_files or [(b"./", b""), (b"./usr/", b""), (b"./usr/bin/x", bytes(rng.randrange(256) for _ in range(rng.randrange(0, 300)))),
                             (b"./usr/share/doc/x/README", b"hello\n")]
     ms = [member(b"debian-binary", binary), member(b"control.tar" + cenc.encode(), compress(chk, cenc, make_tar(cfiles))),
